@@ -431,8 +431,8 @@ func (c *Call) updateLocations(goroot, localgoroot string, localgomods, gopaths 
 		}
 	}
 	// Check GOPATH.
-	// TODO(maruel): Sort for deterministic behavior?
-	for prefix, dest := range gopaths {
+	for _, prefix := range sortedRoots(gopaths) {
+		dest := gopaths[prefix]
 		if p := prefix + "/src/"; strings.HasPrefix(c.RemoteSrcPath, p) {
 			c.RelSrcPath = c.RemoteSrcPath[len(p):]
 			c.LocalSrcPath = pathJoin(dest, "src", c.RelSrcPath)
@@ -460,7 +460,8 @@ func (c *Call) updateLocations(goroot, localgoroot string, localgomods, gopaths 
 	// Check Go modules.
 	// Go module path detection only works with stack traces created on the local
 	// file system.
-	for prefix, pkg := range localgomods {
+	for _, prefix := range sortedRoots(localgomods) {
+		pkg := localgomods[prefix]
 		if strings.HasPrefix(c.RemoteSrcPath, prefix+"/") {
 			c.RelSrcPath = c.RemoteSrcPath[len(prefix)+1:]
 			c.LocalSrcPath = c.RemoteSrcPath
@@ -861,6 +862,22 @@ func nameArguments(goroutines []*Goroutine) {
 		}
 		nextID++
 	}
+}
+
+// sortedRoots returns the keys of m, the longest first, so that the most
+// specific root wins and the result does not depend on map iteration order.
+func sortedRoots(m map[string]string) []string {
+	out := make([]string, 0, len(m))
+	for k := range m {
+		out = append(out, k)
+	}
+	sort.Slice(out, func(i, j int) bool {
+		if len(out[i]) != len(out[j]) {
+			return len(out[i]) > len(out[j])
+		}
+		return out[i] < out[j]
+	})
+	return out
 }
 
 func pathJoin(s ...string) string {
